@@ -208,6 +208,85 @@ def gen_port(repo):
     return m
 
 
+def gen_geometry(repo):
+    """T5: the argument checks of the three buffer classes (constructors, windows, setters) as functions of integers"""
+    OPT = "optint"
+    out = None
+    for path, cls, tag, datakw in (("waveform/_numeric.py", "NumericWaveform", "numeric", "raw_data"), ("waveform/_spectrum.py", "Spectrum", "spectrum", "data"),
+                                   ("waveform/_digital/_waveform.py", "DigitalWaveform", "digital", "data")):
+        m = T.Module(f"{repo}/src/nitypes/{path}", "Gen.Geometry")
+        geom = {"self._start_index": ("self_start", "int"), "self._sample_count": ("self_count", "int"), "self.sample_count": ("self_count", "int"),
+                "self.capacity": ("self_capacity", "int"), "len(self._data)": ("self_capacity", "int"), "len(data)": ("data_len", "int"),
+                "self._timing._timestamps is not None": ("has_stamps", "bool"), "len(self._timing._timestamps)": ("n_stamps", "int")}
+        SELF = [("self_start", "int"), ("self_count", "int"), ("self_capacity", "int")]
+        if tag != "digital":
+            m.translate_geometry(cls, "_init_with_new_array", f"{tag}_new_geometry", [("sample_count", OPT), ("start_index", OPT), ("capacity", OPT)],
+                                 ["start_index", "sample_count", "capacity"])
+            m.translate_geometry(cls, "_init_with_provided_array", f"{tag}_provided_geometry", [("data_len", "int"), ("start_index", OPT), ("sample_count", OPT), ("capacity", OPT)],
+                                 ["start_index", "sample_count", "capacity"], attr_map=geom)
+        getter = "get_raw_data" if tag == "numeric" else "get_data"
+        m.translate_geometry(cls, getter, f"{tag}_{getter}_window", [("start_index", OPT), ("sample_count", OPT)], ["start_index", "sample_count"],
+                             attr_map=geom, extra_params=[("self_count", "int")])
+        if tag != "spectrum":
+            m.translate_geometry(cls, "sample_count", f"{tag}_set_sample_count", [("value", OPT)], ["value"], attr_map=geom, setter=True,
+                                 extra_params=SELF[:1] + SELF[2:] + [("has_stamps", "bool"), ("n_stamps", "int")])
+        m.translate_geometry(cls, "capacity", f"{tag}_set_capacity", [("value", OPT)], ["value"], attr_map=geom, setter=True, extra_params=SELF)
+        if out is None:
+            out = m
+        else:
+            out.out += m.out
+    return out
+
+
+def gen_timing_args(repo, irregular):
+    """T9: what a Timing accepts - `validate_unsupported_arg`, the three `validate_init_args`, the strategy table"""
+    ast = T.ast
+    # the two tuples of time classes the isinstance tests use must be exactly the three supported families
+    tm = T.Module(f"{repo}/src/nitypes/time/_types.py", "Gen.TimingArgs")
+    want = {"ANY_DATETIME_TUPLE": {"bt.DateTime", "dt.datetime", "ht.datetime"}, "ANY_TIMEDELTA_TUPLE": {"bt.TimeDelta", "dt.timedelta", "ht.timedelta"}}
+    seen = {}
+    for n in tm.tree.body:
+        if isinstance(n, ast.Assign) and isinstance(n.targets[0], ast.Name) and n.targets[0].id in want and isinstance(n.value, ast.Tuple):
+            seen[n.targets[0].id] = {ast.unparse(x) for x in n.value.elts}
+    for k, v in want.items():
+        if seen.get(k) != v:
+            raise T.Untranslatable(f"{k} is {sorted(seen.get(k, []))}, expected the three time families {sorted(v)}", where=tm.path)
+    kinds = {"ANY_DATETIME_TUPLE": "isDatetime", "ANY_TIMEDELTA_TUPLE": "isTimedelta", "type(None)": "isNone", "Sequence": "isSeq"}
+    m = T.Module(f"{repo}/src/nitypes/_arguments.py", "Gen.TimingArgs", imports=[irregular])
+    m.extra_imports = ["NiVerif.Model.Timing"]
+    m.out.append("/-- members of `ANY_DATETIME_TUPLE` / `ANY_TIMEDELTA_TUPLE` (nitypes/time/_types.py), checked by the translator -/")
+    m.out.append("@[pygen] def time_families : List (String × List String) := [" + ", ".join(
+        f'("{k}", [' + ", ".join(f'"{x}"' for x in sorted(v)) + "])" for k, v in sorted(seen.items())) + "]")
+    m.out.append("")
+    m.translate_arg_validator(None, "validate_unsupported_arg", "validate_unsupported_arg", ["value"], kinds)
+    m.validators["validate_unsupported_arg"] = "validate_unsupported_arg"
+    P = ["timestamp", "time_offset", "sample_interval", "timestamps"]
+    for fname, cls, tag in (("_none.py", "NoneSampleIntervalStrategy", "none"), ("_regular.py", "RegularSampleIntervalStrategy", "regular"),
+                            ("_irregular.py", "IrregularSampleIntervalStrategy", "irregular")):
+        m2 = T.Module(f"{repo}/src/nitypes/waveform/_timing/_sample_interval/{fname}", "Gen.TimingArgs")
+        m2.validators = dict(m.validators)
+        m2.translate_arg_validator(cls, "validate_init_args", f"{tag}_validate_init_args", P, kinds,
+                                   helpers={"_are_timestamps_monotonic": "Gen.Irregular._are_timestamps_monotonic"})
+        m.out += m2.out
+    # the strategy table: which class validates which mode; anything else is an unknown mode
+    m3 = T.Module(f"{repo}/src/nitypes/waveform/_timing/_sample_interval/__init__.py", "Gen.TimingArgs")
+    table = None
+    for n in m3.tree.body:
+        tgt = n.target if isinstance(n, ast.AnnAssign) else (n.targets[0] if isinstance(n, ast.Assign) else None)
+        if isinstance(tgt, ast.Name) and tgt.id == "_SAMPLE_INTERVAL_STRATEGY_TYPE_FOR_MODE" and isinstance(n.value, ast.Dict):
+            table = [(ast.unparse(k), ast.unparse(v)) for k, v in zip(n.value.keys, n.value.values)]
+    if table is None:
+        raise T.Untranslatable("_SAMPLE_INTERVAL_STRATEGY_TYPE_FOR_MODE: literal dict not found", where=m3.path)
+    fn = m3.find_func(None, "create_sample_interval_strategy")
+    src = ast.unparse(fn)
+    if "_SAMPLE_INTERVAL_STRATEGY_TYPE_FOR_MODE.get(sample_interval_mode)" not in src or "if strategy_type is None" not in src:
+        raise T.Untranslatable("create_sample_interval_strategy: expected a dict.get lookup with a None check", fn, m3.path)
+    m.out.append("/-- generated from `_SAMPLE_INTERVAL_STRATEGY_TYPE_FOR_MODE` (a `dict.get` lookup; a miss raises ValueError) -/")
+    m.out.append("@[pygen] def strategy_for_mode : List (String × String) := [" + ", ".join(f'("{k}", "{v}")' for k, v in table) + "]")
+    m.out.append("")
+    return m
+
+
 MODULES = [
     # (output file, builder, dependencies by output name)
     ("TimeValueTuple", lambda repo, deps: gen_time_value_tuple(repo), []),
@@ -222,6 +301,8 @@ MODULES = [
     ("Atomic", lambda repo, deps: gen_atomic(repo), []),
     ("DigitalState", lambda repo, deps: gen_digital_state(repo), []),
     ("Port", lambda repo, deps: gen_port(repo), []),
+    ("Geometry", lambda repo, deps: gen_geometry(repo), []),
+    ("TimingArgs", lambda repo, deps: gen_timing_args(repo, deps["Irregular"]), ["Irregular"]),
 ]
 
 
@@ -261,7 +342,7 @@ def main(repo: str, outdir: str) -> dict:
                 raise T.Untranslatable(f"dependency of {name} failed to translate")
             m = builder(repo, built)
             m.out.append(dispatch_fn(m))
-            text = m.render([f"NiVerif.Gen.{d}" for d in deps])
+            text = m.render([f"NiVerif.Gen.{d}" for d in deps] + list(getattr(m, "extra_imports", [])))
             built[name] = m
             entry = {"ok": True, "source": os.path.relpath(m.path, repo), "defs": len(m.funcs),
                      "consts": len(m.consts)}
